@@ -479,6 +479,48 @@ def bounded_support(G, ctx):
             ctx.count("bounded-support:" + kernel)
 
 
+def kwargs_twin_kernels(G, ctx):
+    """a target whose trace was built with a KEYWORD argument: every kernel must treat it exactly like the positional twin program
+    (same key -> same proposal, same acceptance, same resulting choices)"""
+    import jax.numpy as jnp
+    import jax.random as jr
+    import genjax.inference.mcmc as M
+    from genjax import sel
+    normal = G.normal
+
+    @G.gen
+    def m_kw(x0, sd=1.0):
+        z = normal(x0, sd) @ "z"
+        normal(z, 0.5) @ "y"
+        return z
+
+    @G.gen
+    def m_pos(x0):
+        z = normal(x0, 3.0) @ "z"
+        normal(z, 0.5) @ "y"
+        return z
+
+    cons = {"z": jnp.float32(0.2), "y": jnp.float32(1.4)}
+    t_kw, _ = G.seed(lambda: m_kw.generate(cons, jnp.float32(0.0), sd=jnp.float32(3.0)))(jr.key(1))
+    t_pos, _ = G.seed(lambda: m_pos.generate(cons, jnp.float32(0.0)))(jr.key(1))
+    kernels = {"mh": lambda t: M.mh(t, sel("z")), "mala": lambda t: M.mala(t, sel("z"), 0.4), "hmc": lambda t: M.hmc(t, sel("z"), 0.3, 3)}
+    for kname, k in kernels.items():
+        for key_int in (3, 4, 5):
+            case = {"kind": "kwargs-twin-kernel", "kernel": kname, "key": key_int}
+            try:
+                a = G.seed(k)(jr.key(key_int), t_kw)
+                b = G.seed(k)(jr.key(key_int), t_pos)
+                za, zb = float(a.get_choices()["z"]), float(b.get_choices()["z"])
+                if abs(za - zb) > 1e-5 or abs(float(a.get_score()) - float(b.get_score())) > 1e-4:
+                    ctx.property_failure(None, f"{kname}: a trace built with sd=3.0 passed by keyword moves to z={za}, its positional twin (same key) to z={zb}: "
+                                         "the kernel does not see the keyword argument of the target", {**case, "z_keyword": za, "z_positional": zb})
+            except Exception as ex:
+                impl.reset_handlers()
+                ctx.property_failure(None, f"{kname} on a keyword-argument target raised {type(ex).__name__}: {str(ex)[:150]}", case)
+            ctx.case(sample=case if key_int == 3 else None, nontrivial_key=("kw-twin", kname, key_int))
+            ctx.count("kwargs-twin-kernel")
+
+
 def shard(ctx, jobs):
     import random
     G = impl.load()
@@ -507,6 +549,7 @@ def run(ctx, audit):
     common.run_sharded(ctx, "props.c09", "shard", [(jobs[i::n],) for i in range(n)])
     leapfrog_model(ctx)
     bounded_support(G, ctx)
+    kwargs_twin_kernels(G, ctx)
     return {"rule": RULE}
 
 
